@@ -25,7 +25,7 @@ ASSUMPTIONS = [
     'the classification rule itself (NUL or lone CR within the probed prefix = binary) is the documented behaviour; the oracle only uses its unambiguous cases: a NUL/lone CR strictly before offset PROBE_LIMIT-1 is binary, content without NUL and without lone CR is text',
     'jobs named "pl4" run the same MIR with the constant PROBE_LIMIT replaced by 4 (modified constant): they cover the boundary arithmetic, not the value 8192',
 ]
-BUDGET = {'quick': 260, 'thorough': 3000}
+BUDGET = {'quick': 900, 'thorough': 3000}
 F = 'lib/src/eol.rs'
 
 def jobs(tier):
